@@ -58,7 +58,7 @@ type c03Case struct {
 	ExtRID     bool      `json:"ext_rid"`
 	Multipath  bool      `json:"multipath"`
 	Cands      []c03Cand `json:"cands"`
-	Histories  [][]c03Op `json:"histories"`  // preludes; each is followed by Perms[i] of final adds
+	Histories  [][]c03Op `json:"histories"` // preludes; each is followed by Perms[i] of final adds
 	Perms      [][]int   `json:"perms"`
 	Exhaustive bool      `json:"exhaustive"` // additionally run every permutation (n<=5)
 }
